@@ -9,6 +9,15 @@
      hsC <tls|dtls> <scert> <ccert> <cca> <ver>         harness client (max version ver) vs real collector
      hsR <tls|dtls> <etls> <cenc> <scert> <sname> <ccert> <cca>   real exporter vs real collector
      xerr <tls|dtls> <ca> <cert> <key>                  real exporter with broken material vs real collector
+
+   <cca> of hsE: set | unset (the harness server asks for CA1 client certificates or not);
+   <cca> of hsC / hsR (the real collector's CACert): unset (nil) | set (CA1) | garbage | der | keyfile |
+   truncated | empty (material from which no certificate parses).
+
+   Time: the unit is one minute, "now" is 0 (the moment the harness mints its certificates; a run
+   lasts well under the 2-minute margin of the boundary kinds).  ok = [-60, 1440], expired =
+   [-180, -60], future = [60, 180], justexpired = [-180, -2], almostvalid = [2, 180]: the numbers
+   of c18NewPKI / mintBoundary in c18.go.
 *)
 From Coq Require Import List Bool Arith NArith ZArith String.
 From Verif.Base Require Import Str.
@@ -25,25 +34,29 @@ Definition good_sans := ["collector.example"; "127.0.0.1"].
 
 Definition mk (id iss : N) (nb na : Z) (sans : list string) : cert :=
   {| c_id := id; c_issuer := iss; c_nb := nb; c_na := na; c_sans := sans |}.
-Definition ca1 := mk 1 1 (-10) 10 [].
-Definition ca2 := mk 2 2 (-10) 10 [].
+Definition ca1 := mk 1 1 (-120) 1500 [].
+Definition ca2 := mk 2 2 (-120) 1500 [].
+Definition mk_ok (id iss : N) (sans : list string) : cert := mk id iss (-60) 1440 sans.
 
 Definition scert_of (s : string) : option cert :=
-  if s =? "trusted" then Some (mk 10 1 (-10) 10 good_sans)
-  else if s =? "otherca" then Some (mk 11 2 (-10) 10 good_sans)
-  else if s =? "selfsigned" then Some (mk 12 12 (-10) 10 good_sans)
-  else if s =? "expired" then Some (mk 13 1 (-10) (-1) good_sans)
-  else if s =? "future" then Some (mk 14 1 1 10 good_sans)
-  else if s =? "wrongsan" then Some (mk 15 1 (-10) 10 ["wrong.example"; "10.9.9.9"])
-  else if s =? "nosan" then Some (mk 16 1 (-10) 10 [])
+  if s =? "trusted" then Some (mk_ok 10 1 good_sans)
+  else if s =? "otherca" then Some (mk_ok 11 2 good_sans)
+  else if s =? "selfsigned" then Some (mk_ok 12 12 good_sans)
+  else if s =? "expired" then Some (mk 13 1 (-180) (-60) good_sans)
+  else if s =? "future" then Some (mk 14 1 60 180 good_sans)
+  else if s =? "wrongsan" then Some (mk_ok 15 1 ["wrong.example"; "10.9.9.9"])
+  else if s =? "nosan" then Some (mk_ok 16 1 [])
+  else if s =? "justexpired" then Some (mk 17 1 (-180) (-2) good_sans)
+  else if s =? "almostvalid" then Some (mk 18 1 2 180 good_sans)
   else None.
 
 (* client certificate kind -> Some None (no certificate) | Some (Some c) *)
 Definition ccert_of (s : string) : option (option cert) :=
   if s =? "none" then Some None
-  else if s =? "trusted" then Some (Some (mk 20 1 (-10) 10 []))
-  else if s =? "otherca" then Some (Some (mk 21 2 (-10) 10 []))
-  else if s =? "expired" then Some (Some (mk 22 1 (-10) (-1) []))
+  else if s =? "trusted" then Some (Some (mk_ok 20 1 []))
+  else if s =? "otherca" then Some (Some (mk_ok 21 2 []))
+  else if s =? "expired" then Some (Some (mk 22 1 (-180) (-60) []))
+  else if s =? "justexpired" then Some (Some (mk 23 1 (-180) (-2) []))
   else None.
 
 Definition sname_of (s : string) : option string :=
@@ -68,13 +81,21 @@ Definition hsproto_of (s : string) : option string :=
   if s =? "tls" then Some "tcp" else if s =? "dtls" then Some "udp" else None.
 Definition proto_tok (s : string) : string := if s =? "-" then "" else s.
 
-(* PEM material of the cfg / xerr cases *)
+(* PEM material of the cfg / xerr cases.  garbage (armour around non-base64), der (no armour),
+   keyfile (a block that is not CERTIFICATE), truncated (CERTIFICATE block, not a certificate),
+   empty (zero bytes, not nil): no certificate parses *)
+Definition unusable_kind (s : string) : bool :=
+  (s =? "garbage") || (s =? "der") || (s =? "keyfile") || (s =? "truncated") || (s =? "empty").
 Definition ca_of (s : string) : option pem :=
-  if s =? "nil" then Some [] else if s =? "garbage" then Some []
+  if s =? "nil" then Some [] else if unusable_kind s then Some []
   else if s =? "ca1" then Some [ca1] else if s =? "ca12" then Some [ca1; ca2]
-  else if s =? "leaf" then Some [mk 12 12 (-10) 10 good_sans] else None.
+  else if s =? "leaf" then Some [mk_ok 12 12 good_sans] else None.
 Definition coll_ca_of (s : string) : option (option pem) :=
   if s =? "nil" then Some None else option_map Some (ca_of s).
+(* CACert of the real collector in the hsC / hsR cells *)
+Definition cca_of (s : string) : option (option pem) :=
+  if s =? "unset" then Some None else if s =? "set" then Some (Some [ca1])
+  else if unusable_kind s then Some (Some []) else None.
 Definition certpem_of (leaf : cert) (s : string) : option (option pem) :=
   if s =? "nil" then Some None
   else if s =? "empty" then Some (Some []) else if s =? "garbage" then Some (Some [])
@@ -132,6 +153,10 @@ Definition parse_conn (tinit tconn tver : string) : option (res conn) :=
 Definition is_T (k : string) (t : string) : option bool :=
   match kv k t with Some v => bool_of v | None => None end.
 
+(* "nolisten" (Start returned without opening a socket) is a remark after the observation proper *)
+Definition drop_nolisten (obs : list string) : list string :=
+  filter (fun t => negb (t =? "nolisten")) obs.
+
 (* ---------------------------------------------------------------- cells *)
 Definition exp_tls_of (sname : string) (cc : option cert) : exp_tls :=
   {| et_server_name := sname; et_ca := [ca1];
@@ -141,9 +166,8 @@ Definition exp_tls_of (sname : string) (cc : option cert) : exp_tls :=
 Definition exp_input_of (proto : string) (etls : bool) (sname : string) (cc : option cert) : exp_input :=
   {| ei_proto := proto; ei_host := host0; ei_tls := if etls then Some (exp_tls_of sname cc) else None |}.
 
-Definition coll_input_of (proto : string) (enc : bool) (sc : cert) (cca : bool) : coll_input :=
-  {| ci_proto := proto; ci_enc := enc; ci_ca := if cca then Some [ca1] else None;
-     ci_cert := [sc]; ci_key := Some (c_id sc) |}.
+Definition coll_input_of (proto : string) (enc : bool) (sc : cert) (cca : option pem) : coll_input :=
+  {| ci_proto := proto; ci_enc := enc; ci_ca := cca; ci_cert := [sc]; ci_key := Some (c_id sc) |}.
 
 (* harness server of the hsE cells: presents sc, speaks at most ver, asks for client certificates
    of CA1 iff cca (TLS only: pion/dtls servers of the harness never ask) *)
@@ -192,7 +216,8 @@ Definition hsC_model (c : coll_input) (cl : endpoint) : string :=
   let hs := if ci_proto c =? "tcp" then
               match client_view c cl with Some v => "hs=ok ver=" ++ show_N v | None => "hs=no ver=-" end
             else match s with Some _ => "hs=ok ver=-" | None => "hs=no ver=-" end in
-  hs ++ " delivered=" ++ show_bool (match s with Some _ => true | None => false end).
+  hs ++ " delivered=" ++ show_bool (match s with Some _ => true | None => false end) ++
+  (if collector_listens c then "" else " nolisten").
 
 Definition hsR_session (i : exp_input) (c : coll_input) : res conn * option conn :=
   let r := init_exporting_process R i (endpoint_of_collector c) in
@@ -203,7 +228,8 @@ Definition hsR_session (i : exp_input) (c : coll_input) : res conn * option conn
 
 Definition hsR_model (i : exp_input) (c : coll_input) : string :=
   let '(r, s) := hsR_session i c in
-  show_conn r ++ " delivered=" ++ show_bool (match s with Some _ => true | None => false end).
+  show_conn r ++ " delivered=" ++ show_bool (match s with Some _ => true | None => false end) ++
+  (if collector_listens c then "" else " nolisten").
 
 (* ---------------------------------------------------------------- one line *)
 Definition out (model : string) (oracle wf : bool) : string :=
@@ -215,14 +241,14 @@ Definition opt_conn_of (r : res conn) (delivered : bool) : option conn :=
 Definition c18_run (case obs : list string) : string :=
   match case with
   | ["ccfg"; sn; ca; ce; ke] =>
-      let leaf := mk 20 1 (-10) 10 [] in
+      let leaf := mk_ok 20 1 [] in
       match sname_of sn, ca_of ca, certpem_of leaf ce, key_of leaf ke with
       | Some sn', Some ca', Some ce', Some ke' =>
           out (show_cfg_res (create_client_config {| et_server_name := sn'; et_ca := ca'; et_cert := ce'; et_key := ke' |})) true true
       | _, _, _, _ => "PARSE-ERROR"
       end
   | ["scfg"; ca; ce; ke] =>
-      let leaf := mk 10 1 (-10) 10 good_sans in
+      let leaf := mk_ok 10 1 good_sans in
       match coll_ca_of ca, certpem_of leaf ce, key_of leaf ke with
       | Some ca', Some (Some ce'), Some ke' =>
           out (show_cfg_res (create_server_config {| ci_proto := "tcp"; ci_enc := true; ci_ca := ca'; ci_cert := ce'; ci_key := ke' |})) true true
@@ -235,7 +261,7 @@ Definition c18_run (case obs : list string) : string :=
           let i := exp_input_of proto etls "collector.example" None in
           (* environment: a collector of the base protocol, encrypted iff the exporter is *)
           let base := if (substring 0 3 proto =? "udp") then "udp" else "tcp" in
-          let srv := endpoint_of_collector (coll_input_of base etls sc false) in
+          let srv := endpoint_of_collector (coll_input_of base etls sc None) in
           let m := show_conn (init_exporting_process R i srv) in
           let o := match obs with
                    | [a; b; c] => match parse_conn a b c with
@@ -269,11 +295,11 @@ Definition c18_run (case obs : list string) : string :=
       | _, _, _, _, _, _ => "PARSE-ERROR"
       end
   | ["hsC"; pr; sc; cc; cca; ver] =>
-      match hsproto_of pr, scert_of sc, ccert_of cc, setflag_of cca, ver_of ver with
+      match hsproto_of pr, scert_of sc, ccert_of cc, cca_of cca, ver_of ver with
       | Some proto, Some sc', Some cc', Some cca', Some ver' =>
           let c := coll_input_of proto true sc' cca' in
           let cl := harness_client proto cc' ver' in
-          let o := match obs with
+          let o := match drop_nolisten obs with
                    | [_; v; d] =>
                        match is_T "delivered=" d with
                        | Some false => true
@@ -291,11 +317,11 @@ Definition c18_run (case obs : list string) : string :=
       | _, _, _, _, _ => "PARSE-ERROR"
       end
   | ["hsR"; pr; et; ce; sc; sn; cc; cca] =>
-      match hsproto_of pr, bool_of et, bool_of ce, scert_of sc, sname_of sn, ccert_of cc, setflag_of cca with
+      match hsproto_of pr, bool_of et, bool_of ce, scert_of sc, sname_of sn, ccert_of cc, cca_of cca with
       | Some proto, Some etls, Some cenc, Some sc', Some sn', Some cc', Some cca' =>
           let i := exp_input_of proto etls sn' cc' in
           let c := coll_input_of proto cenc sc' cca' in
-          let o := match obs with
+          let o := match drop_nolisten obs with
                    | [a; b; cn; d] =>
                        match parse_conn a b cn, is_T "delivered=" d with
                        | Some r, Some dl =>
@@ -307,12 +333,12 @@ Definition c18_run (case obs : list string) : string :=
       | _, _, _, _, _, _, _ => "PARSE-ERROR"
       end
   | ["xerr"; pr; ca; ce; ke] =>
-      let leaf := mk 20 1 (-10) 10 [] in
+      let leaf := mk_ok 20 1 [] in
       match hsproto_of pr, ca_of ca, certpem_of leaf ce, key_of leaf ke, scert_of "trusted" with
       | Some proto, Some ca', Some ce', Some ke', Some sc =>
           let i := {| ei_proto := proto; ei_host := host0;
                       ei_tls := Some {| et_server_name := "collector.example"; et_ca := ca'; et_cert := ce'; et_key := ke' |} |} in
-          let c := coll_input_of proto true sc false in
+          let c := coll_input_of proto true sc None in
           let srv := endpoint_of_collector c in
           let o := match obs with
                    | [a; b; cn] => match parse_conn a b cn with
